@@ -41,6 +41,11 @@ class Facts:
                 i['crate'] = name
                 self.impls.append(i)
 
+        self.inlined = []
+        if crates is None:
+            from .inline import normalise
+            normalise(self)
+
     def body(self, path):
         return self.bodies.get(path)
 
